@@ -1085,3 +1085,97 @@ def bool_eval(test, atom):
                 return None if unknown else True
         return None if unknown else is_and
     return atom(test)
+
+
+def _returned_value(fn, stmts):
+    """canonical text of what the statement list returns: the return expression, a returned local resolved through its last
+    top-level assignment in that list"""
+    rets = [r for r in stmts if isinstance(r, ast.Return) and r.value is not None]
+    if not rets:
+        return None
+    v = rets[-1].value
+    if isinstance(v, ast.Name):
+        defs = [a.value for a in stmts if isinstance(a, ast.Assign) and len(a.targets) == 1 and isinstance(a.targets[0], ast.Name) and a.targets[0].id == v.id]
+        if defs:
+            v = defs[-1]
+    return canon_ast(v)
+
+
+def emitted_lines(fn, stmts=None):
+    """The text a function assembles line by line, as a sequence of ("one", canonical expr) / ("each", iterable, canonical
+    element over `_c0`) items.  Two shapes are understood (after any leading guard returns, which the caller handles):
+    a buffer object that receives `.write(<line> + "\n")` calls (plain statements and simple for-loops) and is finally read with
+    `.getvalue()`; or a list of lines (literal, append, extend, comprehension) finally joined with "\n" per line.
+    None when the code has another shape."""
+    import copy
+    stmts = list(fn.body if stmts is None else stmts)
+    seq = []
+    nl = lambda e: isinstance(e, ast.Constant) and e.value == "\n"
+
+    def line_of(arg):
+        # X + "\n"
+        if isinstance(arg, ast.BinOp) and isinstance(arg.op, ast.Add) and nl(arg.right):
+            return arg.left
+        return None
+
+    bufs = {a.targets[0].id for a in stmts if isinstance(a, ast.Assign) and len(a.targets) == 1 and isinstance(a.targets[0], ast.Name)
+            and isinstance(a.value, ast.Call) and _txt(a.value.func) in ("StringIO", "io.StringIO")}
+    if bufs:
+        buf = sorted(bufs)[0]
+        for st in stmts:
+            writes = [c for c in ast.walk(st) if isinstance(c, ast.Call) and isinstance(c.func, ast.Attribute) and c.func.attr == "write"
+                      and isinstance(c.func.value, ast.Name) and c.func.value.id == buf]
+            if not writes:
+                continue
+            if isinstance(st, ast.Expr) and st.value is writes[0] and len(writes) == 1:
+                ln = line_of(writes[0].args[0]) if len(writes[0].args) == 1 else None
+                if ln is None:
+                    return None
+                seq.append(("one", canon_expr(fn, ln)))
+            elif isinstance(st, ast.For) and isinstance(st.target, ast.Name) and len(st.body) == 1 and isinstance(st.body[0], ast.Expr) \
+                    and st.body[0].value is writes[0] and len(writes) == 1 and not st.orelse:
+                ln = line_of(writes[0].args[0]) if len(writes[0].args) == 1 else None
+                if ln is None:
+                    return None
+                seq.append(("each", canon_expr(fn, st.iter), _txt(_Rename({st.target.id: "_c0"}).visit(copy.deepcopy(ln)))))
+            else:
+                return None
+        if _returned_value(fn, stmts) != f"{buf}.getvalue()":
+            return None
+        return seq
+    # list-of-lines shape
+    lists = [a.targets[0].id for a in stmts if isinstance(a, ast.Assign) and len(a.targets) == 1 and isinstance(a.targets[0], ast.Name) and isinstance(a.value, ast.List)]
+    for L in lists:
+        seq = []
+        ok = True
+        for st in stmts:
+            if isinstance(st, ast.Assign) and len(st.targets) == 1 and isinstance(st.targets[0], ast.Name) and st.targets[0].id == L and isinstance(st.value, ast.List):
+                seq = [("one", canon_expr(fn, e)) for e in st.value.elts]
+                continue
+            evs = list(grow_events(st, L))
+            if not evs:
+                continue
+            if len(evs) != 1 or not isinstance(st, (ast.Expr, ast.AugAssign)):
+                ok = False
+                break
+            n, kind, v = evs[0]
+            if kind == "append":
+                seq.append(("one", canon_expr(fn, v)))
+            elif kind in ("extend", "iadd") and isinstance(v, (ast.ListComp, ast.GeneratorExp)) and len(v.generators) == 1 and not v.generators[0].ifs \
+                    and isinstance(v.generators[0].target, ast.Name):
+                g = v.generators[0]
+                seq.append(("each", canon_expr(fn, g.iter), _txt(_Rename({g.target.id: "_c0"}).visit(copy.deepcopy(v.elt)))))
+            elif kind in ("extend", "iadd") and isinstance(v, ast.List):
+                seq += [("one", canon_expr(fn, e)) for e in v.elts]
+            else:
+                ok = False
+                break
+        if not ok:
+            continue
+        rv = _returned_value(fn, stmts)
+        if rv is None:
+            continue
+        joined = (f"''.join([_c0 + '\\n' for _c0 in {L}])", f"''.join((_c0 + '\\n' for _c0 in {L}))", f"'\\n'.join({L}) + '\\n'")
+        if rv in joined:
+            return seq
+    return None
